@@ -113,3 +113,16 @@ contract(
         )
     },
 )
+
+
+# ------------------------------------------------------------------------------------------------ find_powershell_strings (C03, C01; C16 values are bounded)
+contract(
+    "multidecoder.decoders.shell.find_powershell_strings",
+    props=["C03", "C01", "C16"],
+    returns="list[Node]",
+    fresh_nodes=True,
+    collector="out",
+    types={"args": "list[bytes]"},
+    ensures_each={**EACH},
+    ensures={"fresh": FRESH, "distinct": DISTINCT},
+)
